@@ -16,7 +16,7 @@ from ..core import COL
 from ..shadow import Shadow, bits, longlex_key
 from . import common, c03, c05, c06, c10
 from .common import call, RAISED
-from .c06 import permuted_dict
+from .c06 import permuted_dict, structured_raw_dict, RAW_HOWS
 
 CAP = {'quick': 1500, 'thorough': 6000}
 HEAVY = {'quick': 320, 'thorough': 1300}     # above: light judgement only (order + concept set)
@@ -41,7 +41,7 @@ META = {
     'required_counters': ['judged_todict', 'judged_todict_with_lattice', 'judged_todict_lazy_absent',
                           'judged_fromdict', 'judged_fromdict_raw', 'judged_loaded_lattice',
                           'judged_unpickled', 'judged_child_digest', 'medium_json_str', 'medium_json_bytes',
-                          'medium_json_pathlike', 'medium_json_fileobj', 'medium_literal_string',
+                          'medium_json_pathlike', 'medium_json_fileobj', 'medium_json_binary_fileobj', 'medium_literal_string',
                           'medium_literal_file', 'medium_pickle', 'digests_compared',
                           
                           
@@ -350,7 +350,7 @@ def cases(tier, seed, spec):
 
 def _json_roundtrip(concepts, ctx, work, rng, ignore_lattice, raw):
     C = concepts.Context
-    how = rng.randrange(4)
+    how = rng.randrange(5)
     kw = {'indent': rng.choice([None, 2, 4]), 'sort_keys': rng.random() < .5}
     if how == 0:
         COL.count('medium_json_str')
@@ -372,6 +372,16 @@ def _json_roundtrip(concepts, ctx, work, rng, ignore_lattice, raw):
         if call(ctx.tojson, path, ignore_lattice=ignore_lattice, **kw) is RAISED:
             return RAISED
         return call(C.fromjson, path, raw=raw)
+    if how == 4:        # written through a path, read back from a *binary* file-like object
+        COL.count('medium_json_binary_fileobj')
+        path = os.path.join(work, f'j{rng.randrange(10**6)}.json')
+        if call(ctx.tojson, path, ignore_lattice=ignore_lattice, **kw) is RAISED:
+            return RAISED
+        if rng.random() < .5:
+            with open(path, 'rb') as f:
+                return call(C.fromjson, f, raw=raw)
+        with open(path, 'rb') as f:
+            return call(C.fromjson, io.BytesIO(f.read()), raw=raw)
     COL.count('medium_json_fileobj')
     buf = io.StringIO()
     if call(ctx.tojson, buf, ignore_lattice=ignore_lattice, **kw) is RAISED:
@@ -521,6 +531,9 @@ def run_case(concepts, case, spec):
         for _ in range(2 if sl.n <= 80 else 1):
             same_triple('fromdict-raw', call(C.fromdict, permuted_dict(d, rng), raw=True), sh)
         same_triple('fromdict-raw-ordered', call(C.fromdict, copy.deepcopy(d), raw=True), sh)
+        for how in RAW_HOWS if sl.n <= 40 else [RAW_HOWS[hash(gen.table_key(case)) % 4]]:
+            COL.count('structured_raw_' + how)
+            same_triple('fromdict-raw-' + how, call(C.fromdict, structured_raw_dict(d, rng, how), raw=True), sh)
         same_triple('json', _json_roundtrip(concepts, ctx, work, rng, False, False), sh)
         same_triple('json-raw', _json_roundtrip(concepts, ctx, work, rng, False, True), sh)
         same_triple('json-nolattice', _json_roundtrip(concepts, ctx, work, rng, True, False), sh)
